@@ -15,6 +15,8 @@ CONSTANTS
     MaxSpans = 3
     IncomingKinds <- MC_IncBoth
     WithLazy = TRUE
+    WithCancel = TRUE
+    CancelOwnIds = FALSE
     CtxForms <- MC_Forms
     Emit = FALSE
 VIEW sview
